@@ -92,6 +92,10 @@ def compact(events, ifi="vf0", conf=False):
             out.append({"ev": ev, "to": e["to"], "t": t})
         elif ev == "ret":
             out.append({"ev": ev, "res": e["res"], "t": t})
+        elif ev == "tgate" and not conf:
+            out.append({"ev": ev, "held": e["held"], "t": t})
+        elif ev in ("termask", "sret") and not conf:
+            out.append({"ev": ev, "t": t})
         elif ev in ("leak", "panic"):
             out.append({"ev": ev, "t": 0})
         elif ev == "end":
